@@ -67,7 +67,7 @@ def sig(params, varkw):
     return ", ".join(parts)
 
 
-def _class_source(fam, c):
+def _class_source(fam, c, parent_prefix=""):
     by_name = {k["name"]: k for k in fam["classes"]}
 
     def ancestors(name, acc):
@@ -78,7 +78,7 @@ def _class_source(fam, c):
         return acc
 
     out = []
-    bases = ", ".join(c["parents"]) if c["parents"] else "metaclass=abc.ABCMeta"
+    bases = ", ".join(parent_prefix + p for p in c["parents"]) if c["parents"] else "metaclass=abc.ABCMeta"
     out.append("class %s(%s):" % (c["name"], bases))
     names = [p["name"] for p in c["params"]]
     # a required parameter may not follow a defaulted one in Python: make everything keyword-only
@@ -147,11 +147,25 @@ def module_source(fam, sub=None):
     return "\n".join(out) + "\n"
 
 
+def shadow_source(fam):
+    """the second module of a (one-module) family: homonyms of the classes named in fam["shadows"] - same name, same
+    parents (imported from the family's module), same constructor, logging into the same LOG"""
+    names = [n["name"] for n in fam["classes"] + fam["funcs"]]
+    # the parents are the ORIGINAL classes (also when a parent has a homonym of its own in this module)
+    out = HEADER + ["import %s as orig_" % fam["mod"], "from %s import LOG, %s" % (fam["mod"], ", ".join(names)), ""]
+    for c in fam["classes"]:
+        if c["name"] in fam["shadows"]:
+            out += _class_source(fam, c, "orig_.")
+    return "\n".join(out) + "\n"
+
+
 def package_source(fam):
     """all files of the family, for replays"""
     files = {("%s/__init__.py" % fam["mod"]) if sub_names(fam) else ("%s.py" % fam["mod"]): module_source(fam)}
     for x in sub_names(fam):
         files["%s/%s.py" % (fam["mod"], x)] = module_source(fam, x)
+    if fam.get("shadows"):
+        files["%s_alt.py" % fam["mod"]] = shadow_source(fam)
     return files
 
 
@@ -216,47 +230,80 @@ def value_json(v):
     return {"weird": repr(v)[:200]}
 
 
-def observe(mod, base, dflt, steps, channel):
-    return observe_multi(mod, [{"name": "x", "base": base, "dflt": dflt}], steps, channel)[0]
+def observe(mod, base, dflt, steps, channel, wrap=None, dflt_str=None):
+    return observe_multi(mod, [{"name": "x", "base": base, "dflt": dflt, "dflt_str": dflt_str}], steps, channel, wrap)[0]
 
 
-def observe_multi(mod, opts, steps, channel):
+def group_value(mod, base, ns):
+    """the Namespace of a class group `add_class_arguments(Base, "x")` read as the spec it stands for:
+    class_path = the group's class, init_args = the group's entries in their order"""
+    from jsonargparse import Namespace
+    from jsonargparse._util import get_import_path
+
+    if not isinstance(ns, Namespace):
+        return {"weird": repr(ns)[:200]}
+    return {"spec": {"cp": get_import_path(class_obj(mod, base)), "ia": [[k, value_json(v)] for k, v in ns.__dict__.items()],
+                     "dk": []}}
+
+
+def observe_multi(mod, opts, steps, channel, wrap=None):
     """opts: [{"name", "base", "dflt"}] class-typed options of one parser (in this order); steps: argv items
-    (for option "opt", default the first) and config sources. Returns one observation per option."""
+    (for option "opt", default the first) and config sources. Returns one observation per option.
+    wrap "sub": the options belong to the parser of a sub-command `fit` (argv = fit + items; values and objects are
+    read below cfg.fit); wrap "group": instead of an option typed Base the parser has the class group
+    add_class_arguments(Base, "x") (dotted items only; the group's Namespace is read as the spec of class Base)."""
     from jsonargparse import ArgumentError, ArgumentParser
 
     n = len(opts)
-    parser = ArgumentParser(exit_on_error=False)
+    parser = top = ArgumentParser(exit_on_error=False)
+    if wrap == "sub":
+        parser = ArgumentParser(exit_on_error=False)
+        top.add_subcommands().add_subcommand("fit", parser)
     if any("cfg" in st for st in steps):
         parser.add_argument("--cfg", action="config")
     try:
         for o in opts:
             kw = {}
-            if o["dflt"] is not None:
+            if o.get("dflt_str") is not None:
+                kw["default"] = o["dflt_str"]        # the default given as a class name / class path string
+            elif o["dflt"] is not None:
                 kw["default"] = py_value(o["dflt"])
-            parser.add_argument("--" + o["name"], type=class_obj(mod, o["base"]), **kw)
+            if wrap == "group":
+                parser.add_class_arguments(class_obj(mod, o["base"]), o["name"])
+            else:
+                parser.add_argument("--" + o["name"], type=class_obj(mod, o["base"]), **kw)
     except Exception as e:  # noqa
         return [{"exc": "add_argument:" + type(e).__name__}] * n
+    below = (lambda ns: ns.__dict__.get("fit")) if wrap == "sub" else (lambda ns: ns)
     try:
         if channel == "object":
-            cfg = parser.parse_object({opts[0]["name"]: py_value(steps[0]["raw"])})
+            cfg = top.parse_object({opts[0]["name"]: py_value(steps[0]["raw"])})
         else:
-            cfg = parser.parse_args(argv_of(steps, opts[0]["name"]))
+            cfg = top.parse_args((["fit"] if wrap == "sub" else []) + argv_of(steps, opts[0]["name"]))
     except ArgumentError:
         return [{"rej": 1}] * n
     except SystemExit as e:
         return [{"exc": "SystemExit(%s)" % e.code}] * n
     except BaseException as e:  # noqa
         return [{"exc": type(e).__name__}] * n
-    accs = [value_json(cfg.clone().__dict__.get(o["name"])) for o in opts]
+    try:
+        held = below(cfg.clone()).__dict__
+        accs = [group_value(mod, o["base"], held.get(o["name"])) if wrap == "group" else value_json(held.get(o["name"]))
+                for o in opts]
+    except BaseException as e:  # noqa
+        return [{"exc": "value:" + type(e).__name__}] * n
     del mod.LOG[:]
     try:
-        init = parser.instantiate_classes(cfg)
+        init = top.instantiate_classes(cfg)
     except (TypeError, ValueError):  # a TypeError below an Optional[...] parameter is re-raised as ValueError
         return [{"acc": a, "inst": {"typeerr": 1}} for a in accs]
     except BaseException as e:  # noqa
         return [{"acc": a, "inst": {"other": type(e).__name__}} for a in accs]
-    return split_logs(mod, accs, [init.__dict__.get(o["name"]) for o in opts])
+    try:
+        roots = [below(init).__dict__.get(o["name"]) for o in opts]
+    except BaseException as e:  # noqa
+        return [{"acc": a, "inst": {"other": "result:" + type(e).__name__}} for a in accs]
+    return split_logs(mod, accs, roots)
 
 
 def split_logs(mod, accs, roots):
@@ -363,7 +410,10 @@ def load_family(tmp, fam):
         with open("%s/%s" % (tmp, rel), "w") as f:
             f.write(src)
     importlib.invalidate_caches()
-    return importlib.import_module(fam["mod"])
+    mod = importlib.import_module(fam["mod"])
+    if fam.get("shadows"):
+        importlib.import_module(fam["mod"] + "_alt")     # the module with the homonyms is loaded too
+    return mod
 
 
 def class_obj(mod, name):
@@ -418,9 +468,11 @@ def run_case(tmp, mods, case):
         obs = observe_multi(mod, case["multi"]["opts"], case["multi"]["argv"], "argv")
         res["main"], res["sibs"] = obs[0], obs[1:]
         return res
-    res["main"] = observe(mod, case["base"], case["dflt"], case["steps"], case.get("channel", "argv"))
+    ch = case.get("channel", "argv")
+    wrap = {"sub": "sub", "group": "group"}.get(ch)
+    res["main"] = observe(mod, case["base"], case["dflt"], case["steps"], "argv" if wrap else ch, wrap, case.get("dflt_str"))
     if case.get("twin") is not None:
-        res["twin"] = observe(mod, case["base"], case["dflt"], case["twin"], "argv")
+        res["twin"] = observe(mod, case["base"], case["dflt"], case["twin"], "argv", wrap, case.get("dflt_str"))
     return res
 
 
